@@ -2,7 +2,7 @@
 # usage: tools/run_seeded.sh [tier] [names...]  -- runs, for every seeded change, the check of the property it breaks; writes seeded/RESULTS.<tier>.txt
 tier=${1:-quick}; shift
 cd /verif
-names=${@:-$(ls seeded | grep -E '^C[0-9]+-(m|r2m|r3|r4)')}
+names=${@:-$(ls seeded | grep -E '^C[0-9]+-(m|r2m|r3|r4|r5)')}
 for nm in $names; do
   pid=${nm%%-*}; mod=checks.$(echo $pid | tr A-Z a-z)
   start=$(date +%s)
